@@ -300,6 +300,23 @@ def F31():
     return hits[0][2] if hits else None
 
 
+def F32():
+    """C02 / C04: MQTT 5, clean start 'first connect only'. QoS 2 PUBLISH sent and PUBREC received; the application calls
+    connect() again (the first-connect flag is re-armed and the stored message is reset as for a clean start); that attempt
+    is refused by CONNACK - which used to end the 'first connect' although nothing succeeded; the next reconnect() sends
+    clean start = 0, the broker resumes the session that holds the PUBREC state, and the client PUBLISHes the id again."""
+    from streams.session import STREAMS
+    from streams.session_monitors import mon_C02
+    st = STREAMS[0]
+    # (external event loop: the CONNECT of the refused attempt is still queued when the CONNACK is fed, so the only
+    # CONNECT packets the broker ever sees are the first one, clean start = 1, and the last one, clean start = 0)
+    case = ["cfg proto=5 clean=3 N=20 M=0 manual=0 rof=1 ext=1 ka=60 sup=1", "connect refuse", "reconnect ok", "publish 2 78 09b277 0",
+            "loop_write", "rx pubrec 1", "connect ok", "rx connack 0 134", "reconnect ok", "rx connack 0 0"]
+    obs = st.real(case)
+    hits = [h for h in mon_C02(st, case, obs) if h[1] == "publish-after-pubrec"]
+    return hits[0][2] if hits else None
+
+
 def F27():
     """C01: a QoS 1 message accepted while disconnected (MQTT_ERR_NO_CONN) is sent and acknowledged after connecting,
     on_publish fires - but its MQTTMessageInfo keeps raising in is_published()/wait_for_publish()."""
@@ -570,7 +587,7 @@ def F18():
 
 
 ALL = {"F1": F1, "F2": F2, "F3": F3, "F4": F4, "F4b": F4b, "F5": F5, "F6": F6, "F7": F7, "F8": F8, "F9": F9,
-       "F10": F10, "F19": F19, "F20": F20, "F21": F21, "F22": F22, "F23": F23, "F24": F24, "F25": F25, "F26": F26, "F29": F29, "F27": F27, "F28": F28, "F11": F11, "F12": F12, "F13": F13, "F13t": F13t, "F31": F31, "F30": F30, "F15": F15, "F16": F16, "F17": F17, "F18": F18}
+       "F10": F10, "F19": F19, "F20": F20, "F21": F21, "F22": F22, "F23": F23, "F24": F24, "F25": F25, "F26": F26, "F29": F29, "F27": F27, "F28": F28, "F11": F11, "F12": F12, "F13": F13, "F13t": F13t, "F32": F32, "F31": F31, "F30": F30, "F15": F15, "F16": F16, "F17": F17, "F18": F18}
 
 
 def run(name):
